@@ -7,7 +7,8 @@
    meets.  All other theorems hold for every url_parse. *)
 From SV Require Import Base.Bytes Base.BytesP Base.IO Model.Headers Model.Head Spec.Rfc7230
   Model.HeadLoops Proofs.HeadP Proofs.HeadReadP Proofs.HeadGrammarP Proofs.HeadClassifyP Proofs.HeadLoopsP
-  Model.RustStr Model.Request Spec.Framing Proofs.RequestLevelP.
+  Model.RustStr Model.Request Spec.Framing Proofs.RequestLevelP
+  Base.Regex Generated.SourceParams Tie.RegexTie.
 
 (* C02.1  must-accept: a head rendered from a token method, a canonical origin-form target and
    fields name ":" OWS value OWS (token names, values in the field-value grammar) parses to exactly
@@ -80,6 +81,23 @@ Theorem c02_trim_whitespace_loop :
   forall l, trim_whitespace l = trim_ws l.
 Proof. exact trim_whitespace_is_trim_ws. Qed.
 
+(* C02.5b  the tie to the source: the two `regex!` literals of src/head.rs are re-read from the source ON
+   THIS RUN and translated to a regex AST (props/srcparams.py -> Generated/SourceParams.v); under the
+   standard denotation of regular expressions (Base/Regex.v; safe_regex matches iff the WHOLE line is in
+   the language) they denote exactly the two declarative line grammars above, so the hand-written
+   recognisers accept exactly the lines the source patterns match. *)
+Theorem c02_request_line_regex_is_the_source_literal :
+  forall line, lang src_request_line_regex line <-> exists m t v, reqline_spec line m t v.
+Proof. exact request_line_regex_tie. Qed.
+
+Theorem c02_request_line_recogniser_is_the_source_regex :
+  forall line, lang src_request_line_regex line <-> exists m t v, match_request_line line = Some (m, t, v).
+Proof. exact request_line_recogniser_is_the_source_regex. Qed.
+
+Theorem c02_field_line_regex_is_the_source_literal :
+  forall line, lang src_field_line_regex line <-> exists name g, fieldline_spec line name g.
+Proof. exact field_line_regex_tie. Qed.
+
 (* C02.6  the oracles evaluated on the implementation's observations are true of the model *)
 Theorem c02_oracle_sound :
   forall url_parse b,
@@ -137,6 +155,9 @@ Example c02_nonvacuous :
      mk_fbuf 52 [90]).
 Proof. vm_compute. split; reflexivity. Qed.
 
+Theorem c02_translation_complete : src_problems_regex = 0%nat.
+Proof. exact regex_translated. Qed.
+
 Print Assumptions c02_parse_render_roundtrip.
 Print Assumptions c02_accept_implies_grammar.
 Print Assumptions c02_reject_classified.
@@ -150,3 +171,7 @@ Print Assumptions c02_oracle_roundtrip_sound.
 Print Assumptions c02_d2_refuted.
 Print Assumptions c02_trim_whitespace_loop.
 Print Assumptions c02_request_exposes_head_fields.
+Print Assumptions c02_request_line_regex_is_the_source_literal.
+Print Assumptions c02_request_line_recogniser_is_the_source_regex.
+Print Assumptions c02_field_line_regex_is_the_source_literal.
+Print Assumptions c02_translation_complete.
